@@ -27,21 +27,21 @@ STRUCTURAL_CONSTS = {0.0, 1.0, 2.0, -1.0, 10.0}      # indices, slice bounds, pa
 RENAMES = {'rup': 't', 'diffs[0]': 'd0', 'diffs[1]': 'd1'}       # renamed temporaries (tuple vs two locals, reused variable)
 # idiom differences frozen from the pinned tree, one reason each: (pair, side, predicate text)
 ALLOW = {
-    ('format_seconds_as_time', 'py', "('prec', 'GtE', 0.0)"): '0<=prec<=3 with isinstance(prec,int) == prec===0||...||prec===3',
-    ('format_seconds_as_time', 'py', "('prec', 'LtE', 3.0)"): 'same',
+    ('format_seconds_as_time', 'py', "('prec', 'Lt', 0.0)"): '0<=prec<=3 with isinstance(prec,int) == prec===0||...||prec===3',
+    ('format_seconds_as_time', 'py', "('prec', 'Gt', 3.0)"): 'same',
     ('format_seconds_as_time', 'js', "('prec', 'Eq', 0.0)"): 'same',
     ('format_seconds_as_time', 'js', "('prec', 'Eq', 1.0)"): 'same',
     ('format_seconds_as_time', 'js', "('prec', 'Eq', 2.0)"): 'same',
     ('format_seconds_as_time', 'js', "('prec', 'Eq', 3.0)"): 'same',
     ('str2num', 'js', "('s', 'Contains', '.')"): 'JS chooses parseFloat/parseInt by the presence of a point; Python tries int() then float()',
-    ('normalize_event_code', 'py', "('_gnorms', 'NotContains', 'k')"): 'membership test vs lookup compared with null',
+    ('normalize_event_code', 'py', "('_gnorms', 'Contains', 'k')"): 'membership test vs lookup compared with null',
     ('_norm_kg', 'py', "('s[?].lower()', 'Eq', 'g')"): 'JS strips the unit letters with a regex character class',
     ('_norm_kg', 'py', "('s[?].lower()', 'Eq', 'k')"): 'same',
     ('_norm_g', 'py', "('s[?].lower()', 'Eq', 'g')"): 'same',
     ('TyrvingCalculator.race_points', 'py', "('v.count()', 'Gt', 1.0)"): 'count of points via str.count vs regex match length',
     ('TyrvingCalculator.race_points', 'js', "('?.length', 'Gt', 1.0)"): 'same',
     ('qkids_score', 'py', "('_compTypeMap', 'Contains', 'competitionType')"): 'JS uses hasOwnProperty',
-    ('parse_hms', 'py', "('t', 'NotContains', 'sep')"): 'JS writes t.indexOf(sep) === -1 with a non-literal argument',
+    ('parse_hms', 'py', "('t', 'Contains', 'sep')"): 'JS writes t.indexOf(sep) === -1 with a non-literal argument',
     ('_norm_tzeroes', 'py', "('s', 'Contains', '.')"): 'JS writes s.indexOf(\'.\') >= 0 (same predicate, kept for symmetry)',
     ('_norm_tzeroes', 'js', "('s.slice()', 'Eq', '0')"): "Python strips the zeros with s.rstrip('0') (a method call, not a comparison)",
     ('_norm_tzeroes', 'js', "('s.slice()', 'Eq', '.')"): "Python tests s.endswith('.') (a method call, not a comparison)",
@@ -80,7 +80,10 @@ def js_strs(fn):
     for n in jsast.jwalk(fn):
         if n['type'] == 'Literal' and 'regex' in n:
             pat = n['regex']['pattern']
-            if len(pat) == 1 and pat not in '.^$*+?()[]{}|\\':
+            ms = re.fullmatch(r'\^(\\?.)\+|(\\?.)\+\$', pat)
+            if ms and (ms.group(1) or ms.group(2))[-1] not in '.^$*+?()[]{}|\\dswDSW':
+                out.add((ms.group(1) or ms.group(2))[-1])      # /^x+/ , /x+$/: lstrip('x') / rstrip('x')
+            elif len(pat) == 1 and pat not in '.^$*+?()[]{}|\\':
                 out.add(pat)                    # /x/ is the one-character string 'x'
             elif len(pat) == 2 and pat[0] == '\\' and not pat[1].isalnum():
                 out.add(pat[1])
@@ -105,6 +108,8 @@ def norm_pred(p, side):
         op = 'Eq'
     if op == 'IsNot':
         op = 'NotEq'
+    # a predicate and its negation are the same test (negating a condition and swapping the branches changes nothing)
+    op = {'NotEq': 'Eq', 'NotContains': 'Contains', 'NotIn': 'In', 'GtE': 'Lt', 'LtE': 'Gt'}.get(op, op)
     subj = RENAMES.get(subj, subj)
     if isinstance(val, str) and val in RENAMES:
         val = RENAMES[val]
@@ -124,7 +129,19 @@ def py_preds(fn):
         q = norm_pred(p, 'py')
         if q is not None:
             out.add(q)
-    return out, {c for c in consts if c not in STRUCTURAL_CONSTS}
+    return expand_in(out), {c for c in consts if c not in STRUCTURAL_CONSTS}
+
+
+def expand_in(preds):
+    """`x in (a, b)` is `x == a or x == b`: membership in a literal collection is expanded into its equality tests"""
+    out = set()
+    for s_, op, v in preds:
+        if op == 'In' and isinstance(v, tuple):
+            for x in v:
+                out.add((s_, 'Eq', x))
+        else:
+            out.add((s_, op, v))
+    return out
 
 
 def js_preds(fn):
@@ -156,7 +173,7 @@ def js_preds(fn):
     fixed = set()
     for (s, op, v) in out:
         fixed.add((s, op, v))
-    return fixed, {c for c in consts if c not in STRUCTURAL_CONSTS}
+    return expand_in(fixed), {c for c in consts if c not in STRUCTURAL_CONSTS}
 
 
 # truthiness tests (`if x`, `not x`, `x ? a : b`, operands of and/or inside a test): multiset per tested name
@@ -167,6 +184,9 @@ ALLOW_TRUTHY = {
     ('TyrvingCalculator.points', 'js', 'timingKind'): "default argument idiom: timingKind ? timingKind : 'automatic'",
     ('tyrving_score', 'py', 'params'): '`if not params` after .get(); JavaScript tests == null (null tests are idiom)',
     ('qkids_score', 'js', 'v'): 'v = event.match(PAT_RUN); v ? ... : ... is `if PAT_RUN.match(event)` in Python (call tests are not names)',
+    ('TyrvingCalculator.points', 'js', 'meth'): 'getattr(self, name, default) in Python is lookup + `if (meth == null) meth = default` in JavaScript',
+    ('TyrvingCalculator.get_base_perf', 'js', 'basePerf'): 'dict.get(age, None) in Python is lookup + `if (basePerf == null) basePerf = null` in JavaScript',
+    ('normalize_event_code', 'js', 'k'): '`k not in _gnorms` in Python is lookup + comparison with undefined in JavaScript (see the predicate entry)',
 }
 
 
@@ -180,6 +200,9 @@ def py_truthy(fn):
                 tests(v)
         elif isinstance(e, ast.UnaryOp) and isinstance(e.op, ast.Not):
             tests(e.operand)
+        elif isinstance(e, ast.Compare) and len(e.ops) == 1 and isinstance(e.ops[0], (ast.Is, ast.IsNot, ast.Eq, ast.NotEq)) \
+                and isinstance(e.comparators[0], ast.Constant) and e.comparators[0].value is None:
+            tests(e.left)                     # `x is None` is the emptiness test of x (a match object, a missing entry)
         elif isinstance(e, (ast.Name, ast.Attribute, ast.Subscript)):
             nm = jsast.py_name(e)
             if nm:
@@ -187,6 +210,9 @@ def py_truthy(fn):
     for n in ast.walk(fn):
         if isinstance(n, (ast.If, ast.While, ast.IfExp)):
             tests(n.test)
+        elif isinstance(n, ast.comprehension):
+            for t_ in n.ifs:
+                tests(t_)
     return c
 
 
@@ -201,14 +227,32 @@ def js_truthy(fn):
             tests(e['right'])
         elif t == 'UnaryExpression' and e['operator'] == '!':
             tests(e['argument'])
+        elif t == 'BinaryExpression' and e['operator'] in ('===', '==', '!==', '!=') and (
+                (e['right']['type'] == 'Literal' and e['right'].get('value') is None and 'regex' not in e['right'])
+                or (e['right']['type'] == 'Identifier' and e['right']['name'] == 'undefined')):
+            tests(e['left'])                  # x === undefined / x == null: the emptiness test of x
         elif t in ('Identifier', 'MemberExpression'):
             nm = jsast.js_name(e)
             if nm:
                 if nm.endswith('.length'):
                     nm = nm[:-len('.length')]      # emptiness test of a string / array
                 c[nm] += 1
+    def default_arg_idiom(n):
+        # `if (x === undefined) x = <default>;` is how a default parameter value was written before ES2015
+        t = n['test']
+        if not (n['type'] == 'IfStatement' and t['type'] == 'BinaryExpression' and t['operator'] in ('===', '==') and not n.get('alternate')):
+            return False
+        if not (t['right']['type'] == 'Identifier' and t['right']['name'] == 'undefined' and t['left']['type'] == 'Identifier'):
+            return False
+        cons = n['consequent']
+        if cons['type'] == 'BlockStatement' and len(cons['body']) == 1:
+            cons = cons['body'][0]
+        return cons['type'] == 'ExpressionStatement' and cons['expression']['type'] == 'AssignmentExpression' \
+            and cons['expression']['left']['type'] == 'Identifier' and cons['expression']['left']['name'] == t['left']['name']
     for n in jsast.jwalk(fn):
         if n['type'] in ('IfStatement', 'WhileStatement', 'ConditionalExpression') and n.get('test'):
+            if default_arg_idiom(n):
+                continue
             tests(n['test'])
     return c
 
@@ -251,6 +295,9 @@ def js_replaces(fn):
             if a['type'] == 'Literal' and 'regex' in a:
                 pat, flags = a['regex']['pattern'], a['regex']['flags']
                 scope = 'all' if 'g' in flags else 'first'
+                ms = re.fullmatch(r'\^(\\?.)\+|(\\?.)\+\$', pat)
+                if ms and b == '' and (ms.group(1) or ms.group(2))[-1] not in '.^$*+?()[]{}|\\dswDSW':
+                    continue                    # /^x+/ -> '' is lstrip('x'), /x+$/ -> '' is rstrip('x'): a strip, not a replacement
                 if len(pat) == 1 and pat not in '.^$*+?()[]{}|\\':
                     out[('lit', pat, b, scope)] += 1
                 elif len(pat) == 2 and pat[0] == '\\' and not pat[1].isalnum():
@@ -463,10 +510,12 @@ def run(ctx, repo):
         tp, tj = pt - jt, jt - pt
         for nm in sorted(tp):
             if nm not in jnames:
-                cand = [m_ for m_ in sorted(tj) if m_ not in pnames and tj[m_] == tp[nm]]
-                if cand:
-                    del tj[cand[0]]
-                    tp[nm] = 0
+                # a local that the other side does not know is a renamed temporary: pair it with an unknown local of the other side
+                for m_ in sorted(tj):
+                    if m_ not in pnames and tj[m_] > 0 and tp[nm] > 0:
+                        k_ = min(tj[m_], tp[nm])
+                        tj[m_] -= k_
+                        tp[nm] -= k_
         tres = [('py', nm, k) for nm, k in sorted(tp.items()) if k > 0 and (pq, 'py', nm) not in ALLOW_TRUTHY] + \
                [('js', nm, k) for nm, k in sorted(tj.items()) if k > 0 and (pq, 'js', nm) not in ALLOW_TRUTHY]
         for side, nm, k in tres:
